@@ -1,11 +1,13 @@
 import PyrollProofs.FailureLemmas
 import PyrollProofs.FailureTwin
+import PyrollModel.HookSource
 
 /-!
 # C07 — a failed hook evaluation raises the documented error and leaves no residue
 
 Model: `PyrollModel/Failure.lean` (tied to `pyroll/core/hooks.py` — `_all_finite`, `Hook.__get__`, `Hook.get_result`,
-`HookFunction.__call__`, `HookHost.has_value` — by the correspondence harness `driver/props/c07.py`).
+`HookFunction.__call__`, `HookHost.has_value` — by the source-level tie of section 0 (T) and by the correspondence harness
+`driver/props/c07.py` (K)).
 Only property theorems live here; helper lemmas are in `PyrollProofs/FailureLemmas.lean`.
 
 Reading guide.  `eval P n st (.read i h)` is `Hook.__get__` of hook `h` on instance `i` with `n` stack frames left;
@@ -14,7 +16,67 @@ Reading guide.  `eval P n st (.read i h)` is `Hook.__get__` of hook `h` on insta
 quantifies over all nesting depths and all positions at which a failure can strike.
 -/
 
+-- every unfolding of `eval` names the lemmas about the generated source tables, whether the goal has that case or not
+set_option linter.unusedSimpArgs false
+
 namespace Failure
+
+/-! ## 0. the tie of the hand-written model to the source (T)
+
+`pyroll/core/hooks.py` is re-read on every run of `./check C07` (`driver/translate/hooks_skeleton.py` →
+`PyrollModel/Gen/C07Hooks.lean`).
+
+* `hooks_source_consumed` - `post` (the conversions of `Hook.__get__`: which outcome of `get_result` becomes which
+  exception, in source order), `stored` (how many of them precede the write to `__cache__`) and `unmark` (the discard of the
+  re-entrancy mark: in `finally`, unless the call was a cycled one) are the model's functions INSTANTIATED with the
+  generated tables; `eval`, and therefore every theorem below, is about this instance.  The theorem states what the
+  instance is; the proofs (`PyrollProofs/FailureLemmas.lean`: `post_gen`, `stored_gen`, `unmark_gen`) rest on it.
+* `hooks_source_as_modelled` - the statements of `_all_finite`, `HookFunction.__call__`, `_determine_extra_args`,
+  `HookFunction.cycle`, `Hook.__get__` (explicit-value and remembered-value part; the computing part is covered by the
+  consumed facts, whose recogniser accepts nothing else), `Hook.get_result`, `HookHost.has_value` in canonical form are the
+  ones the model was written against (`PyrollModel/HookSource.lean`), with every writer of `__dict__`, `__cache__`,
+  `_active_instances` anywhere in the file outside the functions that C01 / C02 / C12 mirror (`reevaluate_cache`,
+  `evaluate_and_set_hooks`, `extension_class`, `__copy__`, `__deepcopy__`). -/
+
+/-- **Source tie, consumed part** -/
+theorem hooks_source_consumed :
+    (∀ r, post r = postRef r) ∧ (∀ r, stored r = post r) ∧
+    (∀ st1 f i cyc r, unmark st1 f i cyc r = if cyc then st1 else st1.setMark f i false) :=
+  ⟨fun r => congrFun post_gen r, stored_gen, unmark_gen⟩
+
+/-- the model really follows the tables: without the `except RecursionError` entry the RecursionError escapes; with the
+    store moved in front of the finiteness test a non-finite value reaches the store; with the discard after the `try` an
+    exception leaves the mark set -/
+example : postWith [("is None", "AttributeError"), ("not _all_finite", "ValueError")] (.exc .recursionError)
+      = .exc .recursionError ∧
+    postWith ([("except RecursionError", "AttributeError"), ("is None", "AttributeError"),
+      ("not _all_finite", "ValueError")].take 2) (.val (.flt .nan)) = .val (.flt .nan) ∧
+    postWith [("except RecursionError", "AttributeError"), ("is None", "AttributeError"),
+      ("not _all_finite", "ValueError")] (.val (.flt .nan)) = .exc .valueError := by decide
+
+/-- **Source tie, pinned part**: the mirrored statements; the explicit value and the remembered value are looked up by
+    name in `__dict__` then `__cache__` and count when they are `is not None`; a computed value is stored in `__cache__`; a
+    result of an implementation is final when it `is not None`; the mark is `id(instance)`, `cycle` is computed before the
+    mark is set, the mark is set before the `try` -/
+theorem hooks_source_as_modelled :
+    Gen.C07.Hooks.hook_getExplicit = HookSource.hook_getExplicit ∧
+    Gen.C07.Hooks.hook_getCached = HookSource.hook_getCached ∧
+    Gen.C07.Hooks.allFinite = HookSource.allFinite ∧
+    Gen.C07.Hooks.hookFunction_cycle = HookSource.hookFunction_cycle ∧
+    Gen.C07.Hooks.hookFunction_call = HookSource.hookFunction_call ∧
+    Gen.C07.Hooks.hookFunction_determineExtraArgs = HookSource.hookFunction_determineExtraArgs ∧
+    Gen.C07.Hooks.hook_getResult = HookSource.hook_getResult ∧
+    Gen.C07.Hooks.hookHost_hasValue = HookSource.hookHost_hasValue ∧
+    Gen.C07.Hooks.stateWriters = (HookSource.writersOf ["__dict__", "__cache__", "_active_instances"]).filter
+      (fun w => !(["HookHost.reevaluate_cache", "HookHost.evaluate_and_set_hooks", "HookHost.extension_class",
+        "HookHost.__copy__", "HookHost.__deepcopy__"].contains w.1)) ∧
+    Gen.C07.Hooks.classMembers = HookSource.membersOf ["HookFunction()"] ∧
+    Gen.C07.Hooks.getLookups = [("__dict__", "is not None"), ("__cache__", "is not None")] ∧
+    Gen.C07.Hooks.getStore = "__cache__" ∧ Gen.C07.Hooks.getResultTest = "is not None" ∧
+    Gen.C07.Hooks.callKey = "id(instance)" ∧ Gen.C07.Hooks.callCycleBeforeMark = true ∧
+    Gen.C07.Hooks.callMarkBeforeTry = true ∧ Gen.C07.Hooks.callDiscardClause = "finally" := by
+  refine ⟨?_, ?_, ?_, ?_, ?_, ?_, ?_, ?_, ?_, ?_, ?_, ?_, ?_, ?_, ?_, ?_, ?_⟩ <;> first | rfl | decide
+
 
 /-- the call `self.get_result(instance)` made by `Hook.__get__` when neither `__dict__` nor `__cache__` has a value -/
 def getResult (P : Prog) (n : Nat) (st : St) (i h : Nat) : Res × St :=
@@ -28,7 +90,7 @@ theorem read_computes (P : Prog) (n : Nat) (st : St) (i h : Nat) (hc : Computes 
     eval P (n + 1) st (.read i h) =
       (post (getResult P n st i h).1,
        store ((getResult P n st i h).2.setReading i h (st.reading i h)) i h (post (getResult P n st i h).1)) := by
-  simp only [eval, hc.1, hc.2, getResult]
+  simp only [eval, unmark_gen, stored_gen, hc.1, hc.2, getResult]
 
 /-! ## 1. the documented error -/
 
@@ -61,7 +123,7 @@ theorem nonfinite_is_value_error (P : Prog) (n : Nat) (st : St) (i h : Nat) (hc 
   rw [read_computes P n st i h hc, hr]
   have hn : v ≠ .none := by intro h'; subst h'; simp [leavesFinite] at hv
   have : post (.val v) = .exc .valueError := by
-    unfold post
+    rw [post_gen]; unfold postRef
     split
     · next heq => cases heq
     · next heq => cases heq
@@ -80,7 +142,7 @@ theorem finite_passes (P : Prog) (n : Nat) (st : St) (i h : Nat) (hc : Computes 
     (eval P (n + 1) st (.read i h)).1 = .val v ∧ (eval P (n + 1) st (.read i h)).2.cache i h = some v := by
   rw [read_computes P n st i h hc, hr]
   have : post (.val v) = .val v := by
-    unfold post
+    rw [post_gen]; unfold postRef
     split
     · next heq => cases heq
     · next heq => cases heq
@@ -105,13 +167,13 @@ example : (Val.set 3).nonNumeric := trivial
 innermost `Hook.__get__` whose `get_result` it leaves converts it. -/
 theorem read_never_recursion_error (P : Prog) (n : Nat) (st : St) (i h : Nat) :
     (eval P (n + 1) st (.read i h)).1 ≠ .exc .recursionError := by
-  simp only [eval]
+  simp only [eval, unmark_gen, stored_gen]
   split
   · simp
   · split
     · simp
     · generalize (eval P n (st.enter i h) (.chain i h (P.chain h))).1 = r
-      unfold post
+      rw [post_gen]; unfold postRef
       split <;> simp_all
       split <;> simp
 
@@ -140,7 +202,7 @@ theorem runaway_mutual_recursion (n i h : Nat) :
       (eval pingPong n st task).1.isLimitErr ∧ (eval pingPong n st task).2.cache = init.cache := by
     intro n
     induction n with
-    | zero => intro st task _ hc _; simp only [eval]; exact ⟨.inl rfl, hc⟩
+    | zero => intro st task _ hc _; simp only [eval, unmark_gen, stored_gen]; exact ⟨.inl rfl, hc⟩
     | succ n ih =>
       intro st task hd hc ht
       cases task with
@@ -148,12 +210,12 @@ theorem runaway_mutual_recursion (n i h : Nat) :
         have hcomp : Computes st i h := by simp [Computes, hd, hc, init, present]
         rw [read_computes pingPong n st i h hcomp]
         obtain ⟨h1, h2⟩ := ih (st.enter i h) (.chain i h (pingPong.chain h)) hd hc (by simp [pingPong])
-        rcases h1 with e | e <;> simp only [getResult, e, post, store, St.setReading] <;> exact ⟨.inr rfl, h2⟩
+        rcases h1 with e | e <;> simp only [getResult, e, post_gen, postRef, store, St.setReading] <;> exact ⟨.inr rfl, h2⟩
       | chain i h fs =>
         cases fs with
         | nil => simp at ht
         | cons f fs =>
-          simp only [eval]
+          simp only [eval, unmark_gen, stored_gen]
           obtain ⟨h1, h2⟩ := ih (st.setMark f i true) (.body f i (st.marks f i) 0 (pingPong.body f)) hd hc
             ⟨none, 1 - f, .retAcc 1, rfl⟩
           generalize eval pingPong n (st.setMark f i true) (.body f i (st.marks f i) 0 (pingPong.body f)) = res at h1 h2
@@ -164,7 +226,7 @@ theorem runaway_mutual_recursion (n i h : Nat) :
       | body f i cyc acc b =>
         obtain ⟨r, k, c, hb⟩ := ht
         subst hb
-        simp only [eval]
+        simp only [eval, unmark_gen, stored_gen]
         obtain ⟨h1, h2⟩ := ih st (.read (resolve i r) k) hd hc trivial
         generalize eval pingPong n st (.read (resolve i r) k) = res at h1 h2
         obtain ⟨r1, st1⟩ := res
@@ -226,7 +288,7 @@ theorem failed_read_remembers_nothing (P : Prog) (n : Nat) (st : St) (i h : Nat)
   cases n with
   | zero => simp [readHook, eval]
   | succ n =>
-    simp only [readHook, eval] at hfail hre ⊢
+    simp only [readHook, eval, unmark_gen, stored_gen] at hfail hre ⊢
     split at hfail
     · cases hfail
     · split at hfail
